@@ -73,8 +73,10 @@ def leaf(r, kinds=LEAF_KINDS):
 
 C06_FILTERS = [['drop', 'Ws'], ['drop', 'Ws', 'Comma'], ['keep', 'A', 'B', 'Ws']]
 
-def gen_c06(r, size):
-    """random grammar over the C06 fragment"""
+def gen_c06(r, size, kinds=None):
+    """random grammar over the C06 fragment; with [kinds] every leaf accepts tokens of these kinds only"""
+    if kinds is not None:
+        return gen_c06_over(r, size, kinds)
     if size <= 1:
         return leaf(r)
     k = r.below(22)
@@ -96,6 +98,24 @@ def gen_c06(r, size):
     if k == 19: return ['sub', gen_c06(r, size - 1)]
     return leaf(r)
 
+def gen_c06_over(r, size, kinds):
+    """C06 grammars whose leaves accept only tokens of [kinds] (items of lists: separator- and abort-free)"""
+    if size <= 1:
+        k = r.below(6)
+        if k < 3: return ['one', r.choice(kinds)]
+        if k == 3: return ['any'] + sorted(set(r.choice(kinds) for _ in range(2)))
+        if k == 4: return ['seq'] + [r.choice(kinds) for _ in range(1 + r.below(2))]
+        return ['pred', ['is', r.choice(kinds)]]
+    k = r.below(10)
+    a = lambda: gen_c06_over(r, size // 2, kinds)
+    if k < 3: return ['both', a(), a()]
+    if k == 3: return [r.choice(['left', 'right']), a(), a()]
+    if k < 6: return ['either', a(), a()]
+    if k == 6: return ['maybe', gen_c06_over(r, size - 1, kinds)]
+    if k == 7: return ['map', r.below(9), gen_c06_over(r, size - 1, kinds)]
+    if k == 8: return [r.choice(['implies', 'antecedent', 'consequent']), a(), a()]
+    return gen_c06_over(r, 1, kinds)
+
 def nonnullable_leaf(r, kinds=LEAF_KINDS):
     k = r.below(5)
     if k < 3: return ['one', r.choice(kinds)]
@@ -107,7 +127,7 @@ def gen_item(r, size, kinds=LEAF_KINDS):
     if size <= 1:
         return nonnullable_leaf(r, kinds)
     k = r.below(8)
-    if k == 0: return ['both', gen_item(r, size // 2, kinds), gen_c06(r, size // 2)]
+    if k == 0: return ['both', gen_item(r, size // 2, kinds), gen_c06(r, size // 2, None if kinds is LEAF_KINDS else kinds)]
     if k == 1: return ['both', nonnullable_leaf(r, kinds), ['maybe', nonnullable_leaf(r, kinds)]]
     if k == 2: return ['either', gen_item(r, size // 2, kinds), gen_item(r, size // 2, kinds)]
     if k == 3: return ['map', r.below(9), gen_item(r, size - 1, kinds)]
